@@ -44,6 +44,9 @@ CLAIMED = {
  "C20": ("TLA+ time-of-day arithmetic modulo 24 h (OpsDuration: TimeAdd/TimeDiff), modular laws model-checked (MC_Duration); TLC trace validation of Time.add/subtract/+-timedelta/diff/closest/farthest",
          "every recorded Time.add/subtract/+ timedelta/- timedelta (boundary times x amounts spanning several days of either sign, subtract undoing add on the threaded object, timedeltas with a day component must raise TypeError), diff/t2 - t1/native operands over all pairs of a boundary set, closest/farthest is judged by TLC to the microsecond",
          "TLC, harness projection; negative sub-day timedeltas (whose normal form has days = -1) are not judged: 'a day component' has two readings there", "7 C20"),
+ "C14": ("TLA+: pickle/copy/deepcopy are stuttering steps of the Session state machine on the abstraction (Trace.J_copy: same class, fields, derived instant and offset, duration components, interval end-points and flag, zone); TLC trace validation over values that use the fragile hidden state",
+         "every recorded pickle (protocols 0..5), copy.copy and copy.deepcopy of DateTimes on ambiguous wall times with fold 0 and 1 in every zone that has overlaps, naive/UTC/fixed-offset DateTimes, Dates, Times, Durations with every subset of components and either sign, Intervals (forward, inverted, absolute; DateTime and Date end-points, end-points on ambiguous times), Timezone and FixedTimezone objects is judged by TLC as a stuttering step on the projected abstraction, plus == where the property demands it",
+         "TLC, tz database as above (the instant of a copy is derived by the spec from its wall fields and fold), harness projection", "7 C14"),
 }
 NOT_YET = "check not built yet in this round (planned: see DESIGN.md section 7)"
 
